@@ -237,3 +237,26 @@ V('C07', 'raw-iter-loop-without-step', SCRIPT, "            sop_idx = i\n       
 V('C07', 'getsigop-not-converted-in-verify', EVAL, '    if inIdx < 0:\n        raise VerifySignatureError("inIdx negative")\n', '', 'C07.I1', scope='VerifySignature')
 V('C07', 'push-non-bytes', EVAL, "                bn = len(stack)\n                stack.append(bitcoin.core._bignum.bn2vch(bn))", "                bn = len(stack)\n                stack.append(bn)", 'C07.K1', scope='_EvalScript')
 V('C07', 'reserved-raise-site-keyerror', EVAL, "                err_raiser(EvalScriptError, 'unsupported opcode 0x%x' % sop)", "                err_raiser(EvalScriptError, 'unsupported opcode %s' % OPCODE_NAMES[sop])", 'C07.N1', scope='_EvalScript')
+
+# ------------------------------------------------------------------------------------------------ C08
+V('C08', 'pushdata1-threshold', SCRIPT, 'elif len(d) <= 0xff:', 'elif len(d) <= 0xfe:', 'C08.P1', scope='CScriptOp.encode_op_pushdata')
+V('C08', 'pushdata2-guard-off-by-one', SCRIPT, 'if i + 1 >= len(self):', 'if i >= len(self):', 'C08.P2', scope='CScript.raw_iter')
+V('C08', 'is_p2sh-last-index', SCRIPT, 'self[22] == OP_EQUAL)', 'self[21] == OP_EQUAL)', 'C08.Q1', scope='CScript.is_p2sh')
+V('C08', 'revert-F2-decode-current-opcode', SCRIPT, 'n += CScriptOp(lastOpcode).decode_op_n()', 'n += CScriptOp(opcode).decode_op_n()', 'C08.S1', scope='CScript.GetSigOpCount')
+V('C08', 'revert-F2-no-try', SCRIPT, "        except CScriptInvalidError:\n            # As in Bitcoin Core, count up to the first malformed push\n            pass", "        except ZeroDivisionError:\n            pass", 'C08.S1', scope='CScript.GetSigOpCount')
+V('C08', 'pushdata4-shift', SCRIPT, '(self[i+3] << 24)', '(self[i+3] << 16)', 'C08.P2', scope='CScript.raw_iter')
+V('C08', 'pushdata2-big-endian-writer', SCRIPT, "return b'\\x4d' + struct.pack(b'<H', len(d)) + d", "return b'\\x4d' + struct.pack(b'>H', len(d)) + d", 'C08.P1', scope='CScriptOp.encode_op_pushdata')
+V('C08', 'small-int-range-excludes-16', SCRIPT, 'if 0x51 <= self <= 0x60 or self == 0:', 'if 0x51 <= self < 0x60 or self == 0:', ['C08.N1', 'C08.I1'], scope='CScriptOp.is_small_int')
+V('C08', 'coerce-minus-one-as-number', SCRIPT, "            elif other == -1:\n                other = bytes([OP_1NEGATE])\n", "", 'C08.C1')
+V('C08', 'coerce-int-upper-bound-15', SCRIPT, 'if 0 <= other <= 16:', 'if 0 <= other <= 15:', 'C08.C1')
+V('C08', 'iter-yields-empty-bytes-for-op0', SCRIPT, "            if opcode == 0:\n                yield 0\n            elif data is not None:", "            if data is not None:", 'C08.I1', scope='CScript.__iter__')
+V('C08', 'truncation-not-detected', SCRIPT, 'if len(data) < datasize:', 'if len(data) < datasize - 1:', 'C08.P2', scope='CScript.raw_iter')
+V('C08', 'push-only-bound', SCRIPT, "                if op > OP_16:\n                    return False\n", "                if op > OP_NOP:\n                    return False\n", 'C08.Q1', scope='CScript.is_push_only')
+V('C08', 'canonical-push-threshold', SCRIPT, 'elif op == OP_PUSHDATA2 and len(data) <= 0xFF:', 'elif op == OP_PUSHDATA2 and len(data) < 0xFF:', 'C08.Q1', scope='CScript.has_canonical_pushes')
+V('C08', 'sigop-multisig-weight', SCRIPT, '                        n += 20', '                        n += 16', 'C08.S1', scope='CScript.GetSigOpCount')
+V('C08', 'sigop-accurate-ignored', SCRIPT, 'if fAccurate and (OP_1 <= lastOpcode <= OP_16):', 'if OP_1 <= lastOpcode <= OP_16:', 'C08.S1', scope='CScript.GetSigOpCount')
+V('C08', 'encode-op-n-off-by-one', SCRIPT, 'return CScriptOp(OP_1 + n-1)', 'return CScriptOp(OP_1 + n)', 'C08.N1', scope='CScriptOp.encode_op_n')
+V('C08', 'p2wsh-predicate-length', SCRIPT, "return len(self) == 34 and self[0:2] == b'\\x00\\x20'", "return len(self) >= 34 and self[0:2] == b'\\x00\\x20'", 'C08.Q1')
+V('C08', 'is-valid-swallows-nothing', SCRIPT, "        try:\n            list(self)\n        except CScriptInvalidError:\n            return False\n        return True", "        list(self)\n        return True", ['C08.Q1', 'C08.X1'], scope='CScript.is_valid')
+V('C08', 'cursor-not-advanced-past-data', SCRIPT, "                i += datasize\n\n                yield (opcode, data, sop_idx)", "                yield (opcode, data, sop_idx)", 'C08.P2', scope='CScript.raw_iter')
+V('C08', 'lastopcode-not-updated-for-pushes', SCRIPT, "                lastOpcode = opcode\n", "                if data is None:\n                    lastOpcode = opcode\n", 'C08.S1', scope='CScript.GetSigOpCount')
